@@ -16,6 +16,20 @@ pub struct OgreArrayPoolAllocator<DataType:        Send + Sync,
                                   const POOL_SIZE: usize> {
     pool:      UnsafeCell<Pin<Box<[ManuallyDrop<DataType>; POOL_SIZE]>>>,
     free_list: ContainerType,
+    /// verification only: id in the simulator's region ledger, used to detect "allocator used after it was dropped"
+    #[cfg(feature = "verif")]
+    verif_region_id: u64,
+}
+
+#[cfg(feature = "verif")]
+impl<DataType:        Send + Sync,
+     ContainerType:   MoveContainer<u32>,
+     const POOL_SIZE: usize>
+Drop for
+OgreArrayPoolAllocator<DataType, ContainerType, POOL_SIZE> {
+    fn drop(&mut self) {
+        crate::verif::region_freed(self.verif_region_id, "OgreArrayPoolAllocator");
+    }
 }
 
 
@@ -54,11 +68,14 @@ OgreArrayPoolAllocator<DataType, ContainerType, POOL_SIZE> {
                            }
                            free_list
                        },
+            #[cfg(feature = "verif")]
+            verif_region_id: crate::verif::region_new("OgreArrayPoolAllocator"),
         }
     }
 
     #[inline(always)]
     fn alloc_ref(&self) -> Option<(&mut DataType, u32)> {
+        #[cfg(feature = "verif")] crate::verif::region_check(self.verif_region_id, "OgreArrayPoolAllocator::alloc_ref");
         if let Some(slot_id) = self.free_list.consume_movable() {
             let mutable_pool = unsafe { &mut *(self.pool.get() as *mut Box<[DataType; POOL_SIZE]>) };
             let slot_ref = unsafe { mutable_pool.get_unchecked_mut(slot_id as usize) };
@@ -98,6 +115,7 @@ OgreArrayPoolAllocator<DataType, ContainerType, POOL_SIZE> {
 
     #[inline(always)]
     fn dealloc_id(&self, slot_id: u32) {
+        #[cfg(feature = "verif")] crate::verif::region_check(self.verif_region_id, "OgreArrayPoolAllocator::dealloc_id");
         if std::mem::needs_drop::<DataType>() {
             unsafe {
                 let pool = &mut *(self.pool.get() as *mut Box<[DataType; POOL_SIZE]>);
@@ -118,6 +136,7 @@ OgreArrayPoolAllocator<DataType, ContainerType, POOL_SIZE> {
 
     #[inline(always)]
     fn ref_from_id(&self, slot_id: u32) -> &mut DataType {
+        #[cfg(feature = "verif")] crate::verif::region_check(self.verif_region_id, "OgreArrayPoolAllocator::ref_from_id");
         let mutable_pool = unsafe { &mut * (self.pool.get() as *mut Box<[DataType; POOL_SIZE]>) };
         unsafe { mutable_pool.get_unchecked_mut(slot_id as usize % POOL_SIZE) }
     }
